@@ -41,7 +41,7 @@ from ..core import (AnalysisError, call_name, const_str, find_calls, is_name,
                     walk)
 from ..normalize import expand_locals
 from ..lib_C14 import (COPIER, CORE, EXPORT, FB, WRITER, Mini, Model, USet,
-                       basin_loop, dewalrus, expand_partials,
+                       basin_loop, dewalrus, expand_partials, ifexp_to_if,
                        inline_module_helpers,
                        Unknown, Unordered, base_names, cfg_ids,
                        classes_in, edge_guarded, enclosing_conditions,
@@ -302,7 +302,7 @@ def _priority_sort_orders_types(repo):
     """basins_retrieve sorts the definitions with basin_priority_sorted_key
     and that key orders internal < file < remote (so that a request without
     type preference walks the basins in precedence order)"""
-    br = repo.func(CORE, "RTDCBase.basins_retrieve")
+    br = retrieve_func(repo)
     srt = [c for c in find_calls(br, name="sorted")
            if "basin_priority_sorted_key" in txt(c)
            and "basins_get_dicts" in txt(c)]
@@ -332,6 +332,8 @@ def r72(ctx, repo):
         # receive map-derived arguments there); `mname` labels the route
         hname, seed, mname = pending.pop(0)
         m = method(cls, hname)
+        if m is not None:
+            m = ifexp_to_if(m)
         if m is None:
             raise AnalysisError(f"BasinProxyFeature.{mname} lost")
         # names derived from the map (for a helper: the parameters that
@@ -651,7 +653,7 @@ def r72(ctx, repo):
            "`mapping`" if ok else "the map is not read from the referrer "
            "under the declared mapping name", node=src[0] if src else bmp,
            label="map source")
-    br = repo.func(CORE, "RTDCBase.basins_retrieve")
+    br = retrieve_func(repo)
     kw = {}
     for n in walk(br):
         if isinstance(n, ast.Dict):
@@ -684,6 +686,15 @@ def r72(ctx, repo):
 
 
 # ----------------------------------------------------------------------
+def retrieve_func(repo):
+    """basins_retrieve with helpers inlined and partials expanded"""
+    if getattr(repo, "_c07_retrieve", None) is None:
+        repo._c07_retrieve = expand_partials(inline_module_helpers(
+            repo, CORE, repo.func(CORE, "RTDCBase.basins_retrieve"),
+            methods=True))
+    return repo._c07_retrieve
+
+
 def export_func(repo):
     """Export.hdf5 with module-level helpers inlined and walrus removed"""
     if getattr(repo, "_c07_export", None) is None:
@@ -1299,9 +1310,7 @@ def r74(ctx, repo):
 
 # ----------------------------------------------------------------------
 def r75(ctx, repo):
-    br = expand_partials(inline_module_helpers(
-        repo, CORE, repo.func(CORE, "RTDCBase.basins_retrieve"),
-        methods=True))
+    br = retrieve_func(repo)
     ppath = {n.targets[0].id for n in walk(br) if isinstance(n, ast.Assign)
              and isinstance(n.targets[0], ast.Name) and isinstance(
                  n.value, ast.Call) and call_name(n.value) in (
@@ -2104,6 +2113,59 @@ def _twin_copy_member_partial(src):
         "            copy_member(src_name=key)\n")
 
 
+def _twin_init_kwargs_helper(src):
+    """constructor kwargs built by a private module-level function"""
+    a = src.index("            kwargs = {\n"
+                  "                \"name\": bdict.get(\"name\"),\n")
+    b = src.index("            # Check whether this basin is supported "
+                  "and exists\n")
+    src = src[:a] + (
+        "            kwargs = _basin_init_kwargs(\n"
+        "                bdict,\n"
+        "                referrer=self,\n"
+        "                measurement_identifier="
+        "self.get_measurement_identifier(),\n"
+        "                ignored_basins=bd_keys)\n\n") + src[b:]
+    return src.replace(
+        "class RTDCBase(abc.ABC):\n",
+        "def _basin_init_kwargs(bdict, referrer, measurement_identifier,\n"
+        "                       ignored_basins):\n"
+        "    return {\n"
+        "        \"name\": bdict.get(\"name\"),\n"
+        "        \"description\": bdict.get(\"description\"),\n"
+        "        \"features\": bdict.get(\"features\"),\n"
+        "        \"mapping\": bdict.get(\"mapping\", \"same\"),\n"
+        "        \"mapping_referrer\": referrer,\n"
+        "        \"measurement_identifier\": measurement_identifier,\n"
+        "        \"ignored_basins\": ignored_basins,\n"
+        "    }\n\n\n"
+        "class RTDCBase(abc.ABC):\n", 1)
+
+
+def _twin_guard_clauses(src):
+    """if / elif / else ladder of __getitem__ as guard clauses, branches
+    swapped, inner if / else as conditional expression"""
+    a = src.index("        elif not self.is_scalar:\n"
+                  "            # image, mask, etc\n")
+    b = src.index("    def __len__(self):\n        return len(self.basinmap)"
+                  "\n\n    @property\n    def shape(self):")
+    return src[:a] + (
+        "        if self.is_scalar:\n"
+        "            # sets the cache if not already set\n"
+        "            return self.__array__()[index]\n"
+        "        # image, mask, etc\n"
+        "        indices = (self.basinmap\n"
+        "                   if isinstance(index, slice) and "
+        "index == slice(None)\n"
+        "                   else self.basinmap[index])\n"
+        "        out_arr = np.empty((len(indices),) + "
+        "self.feat_obj.shape[1:],\n"
+        "                           dtype=self.feat_obj.dtype)\n"
+        "        for ii, idx in enumerate(indices):\n"
+        "            out_arr[ii] = self.feat_obj[idx]\n"
+        "        return out_arr\n\n") + src[b:]
+
+
 def _twin_fetch_events(src):
     """both gather loops moved into one helper with positional-only
     parameters and *args / **kwargs"""
@@ -2280,6 +2342,10 @@ TWINS = [
      _twin_store_basins_function),
     ("group members copied through functools.partial", COPIER,
      _twin_copy_member_partial),
+    ("basin constructor kwargs from a module-level helper", CORE,
+     _twin_init_kwargs_helper),
+    ("proxy __getitem__ as guard clauses with a conditional expression", FB,
+     _twin_guard_clauses),
     ("gather loops in a helper with positional-only parameters", FB,
      _twin_fetch_events),
     ("load_dataset with early return", FB,
